@@ -781,6 +781,160 @@ fn build_extra(thorough: bool) -> Vec<Doc> {
         out.push(make_doc(Format::Bgzf, "bgzf-no-eof-marker", "text", f, false));
     }
 
+    // ---- BGZF with empty members at the start, between two concatenated files, and doubled at the end
+    {
+        let eof = vmc::oracle::bgzf::EOF.to_vec();
+        let text = vmc::oracle::bgzf::payload(vmc::oracle::bgzf::Payload::Text, 0, 700);
+        let a = vmc::oracle::bgzf::make_block(&text[..300], 6);
+        let b = vmc::oracle::bgzf::make_block(&text[300..], 6);
+        out.push(make_doc(Format::Bgzf, "bgzf-empty-first", "text", [eof.clone(), a.clone(), b.clone(), eof.clone()].concat(), false));
+        out.push(make_doc(Format::Bgzf, "bgzf-concatenated-files", "text", [a.clone(), eof.clone(), b.clone(), eof.clone()].concat(), false));
+        out.push(make_doc(Format::Bgzf, "bgzf-double-eof", "text", [a.clone(), b.clone(), eof.clone(), eof.clone()].concat(), false));
+        // the members of noodles-written files with EOF markers (empty members) at the start, between all members and
+        // doubled at the end: the same uncompressed stream, a legal BGZF file
+        for n in ["bam-mapped-f2", "bcf-sites-f2", "vcfgz-sites-f2", "samgz-mapped-f2", "bgzf-big"] {
+            let d0 = get(n);
+            let mut f = eof.clone();
+            let mut prev = 0;
+            for &e in d0.item_ends.iter() {
+                f.extend_from_slice(&d0.bytes[prev..e]);
+                f.extend_from_slice(&eof);
+                prev = e;
+            }
+            let mut d = make_doc(d0.format, format!("{n}-empty-members"), &d0.set, f, d0.big);
+            d.equiv_of = Some(d0.name.clone());
+            out.push(d);
+        }
+    }
+
+    // ---- engineered lengths: little-endian length prefixes whose low bytes are zero (a reader that decodes a
+    //      zero-padded partial prefix sees 0 = "end of file")
+    {
+        // BCF: l_shared = 256, 512 (thorough: 65536), l_indiv = 256
+        let l_of = |recs: &[(usize, usize)]| -> (Vec<u8>, Vec<(usize, usize)>) {
+            let set = ok("engineered vcf", records::parse_vcf(&records::eng_vcf_text(recs)));
+            let file = write_bcf(&set, 1);
+            let d = make_doc(Format::Bcf, "tmp", "engineered", file.clone(), false);
+            let i = d.inner.as_ref().unwrap();
+            let mut ls = Vec::new();
+            let mut p = i.header_end;
+            for &e in i.record_ends.iter() {
+                ls.push((walk::le_u32(&i.bytes, p).unwrap(), walk::le_u32(&i.bytes, p + 4).unwrap()));
+                p = e;
+            }
+            (file, ls)
+        };
+        let find_xs = |target: usize| -> Option<usize> {
+            let (_, l0) = l_of(&[(20, 0)]);
+            let guess = (20 + target).checked_sub(l0[0].0)?;
+            (guess.saturating_sub(6)..=guess + 6).find(|&l| l > 0 && l_of(&[(l, 0)]).1[0].0 == target)
+        };
+        let find_xt = |target: usize| -> Option<usize> {
+            let (_, l0) = l_of(&[(0, 20)]);
+            let guess = (20 + target).checked_sub(l0[0].1)?;
+            (guess.saturating_sub(6)..=guess + 6).find(|&l| l > 0 && l_of(&[(0, l)]).1[0].1 == target)
+        };
+        let mut recs: Vec<(usize, usize)> = vec![(3, 0)];
+        let mut tags = Vec::new();
+        for t in [256usize, 512] {
+            if let Some(l) = find_xs(t) {
+                recs.push((l, 0));
+                tags.push(format!("l_shared={t}"));
+            }
+        }
+        if let Some(l) = find_xt(256) {
+            recs.push((0, l));
+            tags.push("l_indiv=256".into());
+        }
+        recs.push((5, 3));
+        if tags.len() == 3 {
+            let (file, _) = l_of(&recs);
+            out.push(make_doc(Format::Bcf, "eng-bcf-lengths-256-512", "engineered", file, false));
+        } else {
+            fail("engineered BCF lengths", format!("only found {tags:?}"));
+        }
+        if thorough {
+            if let Some(l) = find_xs(65536) {
+                let (file, _) = l_of(&[(3, 0), (l, 0), (4, 2)]);
+                out.push(make_doc(Format::Bcf, "eng-bcf-l_shared-65536", "engineered", file, false));
+            }
+        }
+        // BAM: block_size = 256, 512
+        let bs_of = |lens: &[usize]| -> (Vec<u8>, Vec<usize>) {
+            let set = ok("engineered sam", records::parse_sam(&records::eng_sam_text(lens)));
+            let file = write_bam(&set, 1);
+            let d = make_doc(Format::Bam, "tmp", "engineered", file.clone(), false);
+            let i = d.inner.as_ref().unwrap();
+            let mut v = Vec::new();
+            let mut p = i.header_end;
+            for &e in i.record_ends.iter() {
+                v.push(walk::le_u32(&i.bytes, p).unwrap());
+                p = e;
+            }
+            (file, v)
+        };
+        let b0 = bs_of(&[20]).1[0];
+        let mut lens = vec![3usize];
+        for t in [256usize, 512] {
+            let l = 20 + t - b0;
+            if bs_of(&[l]).1[0] != t {
+                fail("engineered BAM block_size", format!("{t} not reached with aux length {l}"));
+            }
+            lens.push(l);
+        }
+        lens.push(7);
+        out.push(make_doc(Format::Bam, "eng-bam-block_size-256-512", "engineered", bs_of(&lens).0, false));
+
+        // index tails: n_no_coor = 256 (low byte zero)
+        let bai = get("bai-of-bam-mapped-f2");
+        if bai.header_end + 8 == bai.bytes.len() {
+            let mut b = bai.bytes.to_vec();
+            b[bai.header_end..].copy_from_slice(&256u64.to_le_bytes());
+            let mut d = make_doc(Format::Bai, "eng-bai-n_no_coor-256", "engineered", b, false);
+            d.index_of = bai.index_of.clone();
+            out.push(d);
+        }
+        for n in ["csi-of-bcf-sites-f2", "tbi-of-vcfgz-sites-f2"] {
+            let d0 = get(n);
+            let i0 = d0.inner.as_ref().unwrap();
+            if i0.header_end + 8 == i0.bytes.len() {
+                let mut b = i0.bytes.to_vec();
+                b[i0.header_end..].copy_from_slice(&256u64.to_le_bytes());
+                let mut d = make_doc(d0.format, format!("eng-{}-n_no_coor-256", d0.format.name()), "engineered", bgzip_at(&b, &[]), false);
+                d.index_of = d0.index_of.clone();
+                out.push(d);
+            }
+        }
+
+        // CRAM: a data container whose length is a multiple of 256 (searched over the length of an aux string)
+        let mut found = None;
+        for l in 1..(if thorough { 3000 } else { 1200 }) {
+            let text = format!(
+                "@HD\tVN:1.6\tSO:coordinate\n@SQ\tSN:sq0\tLN:400\nc0\t0\tsq0\t1\t60\t8M\t*\t0\t0\tACGTACGT\tIIIIIIII\tXZ:Z:{}\nc1\t0\tsq0\t20\t60\t4M\t*\t0\t0\tACGT\tIIII\n",
+                {
+                    let mut x: u32 = 7;
+                    (0..l)
+                        .map(|_| {
+                            x = x.wrapping_mul(1_664_525).wrapping_add(1_013_904_223);
+                            (b'!' + ((x >> 24) % 90) as u8) as char
+                        })
+                        .filter(|c| *c != '@')
+                        .collect::<String>()
+                }
+            );
+            let set = ok("engineered cram sam", records::parse_sam(&text));
+            let file = write_cram(&set, 1);
+            let (_, cs) = walk::cram(&file);
+            if cs.iter().skip(1).any(|c| !c.is_eof && (c.end - c.body) % 256 == 0 && c.end > c.body) {
+                found = Some(file);
+                break;
+            }
+        }
+        if let Some(file) = found {
+            out.push(make_doc(Format::Cram, "eng-cram-container-length-x256", "engineered", file, false));
+        }
+    }
+
     // ---- text without a final newline
     for n in ["sam-mapped", "vcf-sites", "fasta-w60", "fastq-simple", "gff-directives-escapes", "gtf-basic", "bed3", "fai-of-fasta-w60"] {
         let d0 = get(n);
